@@ -178,6 +178,93 @@ Theorem C20_chain_ok_rejects : forall c, chain_ok c None = true ->
 Proof. exact chain_ok_rejects. Qed.
 Print Assumptions C20_chain_ok_rejects.
 
+(* ---- key spelling: whatever the decoder treats as the same key is validated identically ------------ *)
+
+(* KEY SPELLING.  mapstructure matches the keys of a chain entry case-insensitively ("id", "Id", "ID",
+   "iD" are one setting), so the id check has to hold for every spelling.  C20_chain_id_accept_iff
+   restated over entries: with the id written ONCE as (s, v) - s ANY spelling of the key - the id check of
+   the constructors (ValidateDomainID over every spelling + the decoder) passes and yields i iff v is
+   the INTEGER i in 0..255 ... *)
+Theorem C20_chain_id_accept_iff_any_spelling : forall d s v i,
+  ci_entries "id" (cd_entry d) = [(s, v)] ->
+  (ids_valid (cd_entry d) = true /\ accept_id (ci_id (doc_in d)) = Some i) <->
+  exists z, v = JNum z /\ 0 <= z <= 255 /\ i = z.
+Proof. exact doc_id_accept_iff. Qed.
+Print Assumptions C20_chain_id_accept_iff_any_spelling.
+
+(* ... so an accepted entry that writes the id once carries exactly that id, a domain id ... *)
+Theorem C20_chain_id_value_any_spelling : forall d s v cfg,
+  ci_entries "id" (cd_entry d) = [(s, v)] -> validate_doc d = Some cfg ->
+  v = JNum (cc_id cfg) /\ 0 <= cc_id cfg <= 255.
+Proof. exact doc_single_id_value. Qed.
+Print Assumptions C20_chain_id_value_any_spelling.
+
+(* ... and with the id written under SEVERAL spellings (with whatever values) the id of an accepted
+   configuration is one of the written numbers, it is a domain id, and EVERY value written under any
+   spelling passed the range check. *)
+Theorem C20_chain_id_one_of_written : forall d cfg, validate_doc d = Some cfg ->
+  In (JNum (cc_id cfg)) (ci_values "id" (cd_entry d)) /\ 0 <= cc_id cfg <= 255 /\
+  (forall v, In v (ci_values "id" (cd_entry d)) -> id_value_valid v = true).
+Proof. exact doc_id_written. Qed.
+Print Assumptions C20_chain_id_one_of_written.
+
+(* an entry is rejected exactly when the loader does not find "id" / "type" under their exact names
+   (loading against a shared configuration), some spelling of "id" carries a number that is no domain
+   id, or the decoded settings are rejected (C20_validate_none_iff) *)
+Theorem C20_doc_none_iff : forall d,
+  validate_doc d = None <->
+  ((cd_shared d = true /\ loader_pre (cd_entry d) = false) \/
+   (exists v, In v (ci_values "id" (cd_entry d)) /\ id_value_valid v = false) \/
+   validate (doc_in d) = None).
+Proof. exact doc_none_iff. Qed.
+Print Assumptions C20_doc_none_iff.
+
+(* entries spelled as documented, loaded directly, are the constructors' model of the sections above *)
+Theorem C20_doc_canonical : forall k miss v i c s,
+  validate_doc (mkDoc k false miss
+     ([("id"%string, v)] ++ match i with Some z => [("blockInterval"%string, JNum z)] | None => [] end
+      ++ match c with Some z => [("blockConfirmations"%string, JNum z)] | None => [] end
+      ++ match s with Some z => [("startBlock"%string, JNum z)] | None => [] end))
+  = if id_value_valid v then validate (mkChainIn k miss v i c s) else None.
+Proof. exact validate_doc_canonical. Qed.
+Print Assumptions C20_doc_canonical.
+
+(* the judge for entries with arbitrary key spellings accepts the model - in whichever order Go visits
+   the entry's map - and what it accepts is a configuration made of written values *)
+Theorem C20_doc_ok_model : forall d, doc_wf d = true ->
+  doc_ok d (model_doc d) = true /\ doc_ok d (model_doc (rev_doc d)) = true.
+Proof. exact doc_ok_model_any_order. Qed.
+Print Assumptions C20_doc_ok_model.
+
+Theorem C20_doc_ok_sound : forall d cfg r, doc_ok d (Some (cfg, r)) = true ->
+  let e := cd_entry d in
+  ((exists v, In v (ci_values "id" e) /\ is_num v = true) ->
+   In (JNum (cc_id cfg)) (ci_values "id" e) /\ 0 <= cc_id cfg <= 255) /\
+  1 <= cc_interval cfg /\
+  ((ci_values "blockInterval" e = [] /\ 1 <= cc_interval cfg) \/
+   exists z, In (JNum z) (ci_values "blockInterval" e) /\ (z <> 0 -> cc_interval cfg = z) /\ (z = 0 -> 1 <= cc_interval cfg)) /\
+  (uses_confs (cd_kind d) = true ->
+   1 <= cc_confs cfg /\
+   ((ci_values "blockConfirmations" e = [] /\ 1 <= cc_confs cfg) \/
+    exists z, In (JNum z) (ci_values "blockConfirmations" e) /\ (z <> 0 -> cc_confs cfg = z) /\ (z = 0 -> 1 <= cc_confs cfg))) /\
+  ((ci_values "startBlock" e = [] /\ cc_start cfg = 0) \/ In (JNum (cc_start cfg)) (ci_values "startBlock" e)) /\
+  r <> Panic.
+Proof. exact doc_ok_sound. Qed.
+Print Assumptions C20_doc_ok_sound.
+
+Theorem C20_use_ok_model_doc : forall d n, use_ok (model_doc d) (model_after (model_doc d) n) = true.
+Proof. exact use_ok_model_doc. Qed.
+Print Assumptions C20_use_ok_model_doc.
+
+(* A validator that looks the key up EXACTLY (chainConfig["id"]) in front of the case-folding decoder
+   violates the property: {"Id": 257} passes it and is narrowed to domain 1. *)
+Theorem C20_exact_id_lookup_refuted :
+  exists d cfg, doc_wf d = true /\ ci_entries "id" (cd_entry d) = [("Id"%string, JNum 257)] /\
+    exact_validate_doc d = Some cfg /\ cc_id cfg = 1 /\
+    doc_ok d (exact_model_doc d) = false /\ validate_doc d = None.
+Proof. exact exact_id_lookup_refuted. Qed.
+Print Assumptions C20_exact_id_lookup_refuted.
+
 (* ---- using a loaded configuration does not change it ------------------------------------------ *)
 
 (* The consumers of an accepted configuration (the start-block computation, run any number of times on
@@ -399,4 +486,25 @@ Example C20_nonvacuous :
   load_strings [(Required, Some ""); (Plain, Some "x")] = None /\
   strs_ok [(Plain, Some "dGVzdGtleQ==")] (Some ["dGVzdGtleQ"]) = false /\
   parse_level "debug" = Some "debug" /\ parse_level "DEBUG" = None.
+Proof. vm_compute. repeat split. Qed.
+
+(* key spelling: the hypotheses (doc_wf, a single id entry) are satisfiable; one setting under several
+   spellings *)
+Example C20_nonvacuous_spelling :
+  let d := mkDoc Evm false false [("ID", JNum 7); ("type", JStr "evm"); ("BLOCKINTERVAL", JNum 3); ("startblock", JNum 11)] in
+  doc_wf d = true /\ ci_entries "id" (cd_entry d) = [("ID", JNum 7)] /\
+  validate_doc d = Some (mkChainCfg 7 3 10 11) /\
+  validate_doc (mkDoc Sub false false [("Id", JNum 257)]) = None /\
+  validate_doc (mkDoc Btc false false [("iD", JFrac 3 2)]) = None /\
+  validate_doc (mkDoc Evm true false [("Id", JNum 1); ("type", JStr "evm")]) = None /\
+  validate_doc (mkDoc Evm true false [("id", JNum 1); ("type", JStr "evm"); ("BlockInterval", JNum 9)]) = Some (mkChainCfg 1 9 10 0) /\
+  validate_doc (mkDoc Evm false false [("id", JNum 1); ("ID", JNum 257)]) = None /\
+  validate_doc (mkDoc Evm false false [("Id", JNum 1); ("id", JNum 2)]) = Some (mkChainCfg 2 5 10 0) /\
+  validate_doc (mkDoc Evm false false [("Id", JNum 1); ("ID", JNum 2)]) = Some (mkChainCfg 1 5 10 0) /\
+  validate_doc (rev_doc (mkDoc Evm false false [("Id", JNum 1); ("ID", JNum 2)])) = Some (mkChainCfg 2 5 10 0) /\
+  doc_ok (mkDoc Evm false false [("Id", JNum 257)]) (Some (mkChainCfg 1 5 10 0, Val 0)) = false /\
+  doc_ok (mkDoc Evm false false [("id", JNum 1); ("ID", JNum 2)]) (Some (mkChainCfg 3 5 10 0, Val 0)) = false /\
+  doc_ok (mkDoc Evm false false [("id", JNum 1); ("BlockInterval", JNum 4); ("blockinterval", JNum 6)]) (Some (mkChainCfg 1 5 10 0, Val 0)) = false /\
+  lookup_ci "blockInterval" [("BLOCKINTERVAL", JNum 1); ("blockInterval", JNum 2)] = Some (JNum 2) /\
+  eq_ci "bLoCkCoNfIrMaTiOnS" "blockConfirmations" = true /\ eq_ci "idx" "id" = false.
 Proof. vm_compute. repeat split. Qed.
